@@ -459,6 +459,19 @@ var opsTargets = []opsTarget{
 	{"syncutil/pool.go", "", "NewPool", "gen_ops_NewPool"},
 	{"syncutil/pool.go", "Pool", "Get", "gen_ops_Pool_Get"},
 	{"syncutil/pool.go", "Pool", "Put", "gen_ops_Pool_Put"},
+	{"syncutil/pool.go", "", "NewSlicePool", "gen_ops_NewSlicePool"},
+	{"netutil/httputil/httputil.go", "", "Wrap", "gen_ops_httputil_Wrap"},
+	{"netutil/httputil/httputil.go", "", "CopyRequestTo", "gen_ops_CopyRequestTo"},
+	{"netutil/httputil/logmw.go", "", "NewLogMiddleware", "gen_ops_NewLogMiddleware"},
+	{"netutil/httputil/logmw.go", "LogMiddleware", "Wrap", "gen_ops_LogMiddleware_Wrap"},
+	{"netutil/httputil/logmw.go", "LogMiddleware", "logFinished", "gen_ops_LogMiddleware_logFinished"},
+	{"netutil/httputil/logmw.go", "LogMiddleware", "attrsSlicePtr", "gen_ops_LogMiddleware_attrsSlicePtr"},
+	{"netutil/httputil/responsewriter.go", "CodeRecorderResponseWriter", "SetImplicitSuccess", "gen_ops_CRW_SetImplicitSuccess"},
+	{"netutil/httputil/responsewriter.go", "CodeRecorderResponseWriter", "Reset", "gen_ops_CRW_Reset"},
+	{"netutil/httputil/responsewriter.go", "CodeRecorderResponseWriter", "Header", "gen_ops_CRW_Header"},
+	{"netutil/httputil/responsewriter.go", "CodeRecorderResponseWriter", "Write", "gen_ops_CRW_Write"},
+	{"netutil/httputil/responsewriter.go", "CodeRecorderResponseWriter", "WriteHeader", "gen_ops_CRW_WriteHeader"},
+	{"netutil/httputil/responsewriter.go", "CodeRecorderResponseWriter", "Code", "gen_ops_CRW_Code"},
 }
 
 func init() {
